@@ -139,8 +139,7 @@ Proof. intros C. unfold SighashImpl.taproot_encode.
     apply Det_bind_lift; intros ps E. apply (get_all_consistent _ _ C) in E. subst ps.
     repeat first [ det_step | (apply (get_all_consistent _ _ C) in E; subst) ]. }
   intros w1. apply Det_bind.
-  { match goal with |- Det (if ?b then _ else _) => destruct b end; [|apply Det_ret].
-    repeat first [ det_step | (apply (get_all_consistent _ _ C) in E; subst) ]. }
+  { match goal with |- Det (if ?b then _ else _) => destruct b end; [|apply Det_ret]. repeat det_step. }
   intros w2. apply Det_bind.
   { destruct acp; [|apply Det_ret]. repeat det_step. }
   intros w3. apply Det_bind.
@@ -152,10 +151,13 @@ Proof. unfold SighashImpl.segwit_encode. apply Det_bind_tx. destruct (ecdsa_spli
   repeat det_step. Qed.
 Lemma legacy_encode_det idx sc ty : Det (legacy_encode idx sc ty).
 Proof. unfold SighashImpl.legacy_encode. apply Det_bind_tx. apply Det_lift. Qed.
+Lemma legacy_sighash_det idx sc ty : Det (legacy_sighash pt_ok maxvec H idx sc ty).
+Proof. unfold SighashImpl.legacy_sighash. apply Det_bind_tx. destruct (ecdsa_split ty) as [sighash acp].
+  match goal with |- Det (if ?b then _ else _) => destruct b end; [apply Det_ret|apply Det_mapM, legacy_encode_det]. Qed.
 
 Lemma query_det o : consistent_prevouts spent o -> Det (query o).
 Proof. destruct o; unfold consistent_prevouts; cbn [op_prevouts SighashCache.query]; intros C.
-  - apply Det_mapM, legacy_encode_det.
+  - apply legacy_sighash_det.
   - apply Det_mapM, segwit_encode_det.
   - apply Det_bind_lift; intros a' _. apply Det_mapM, taproot_encode_det. destruct pv; auto.
   - apply Det_mapM, taproot_encode_det. destruct pv; auto.
@@ -171,7 +173,7 @@ Proof. intros E. induction l as [|a l IH]; intros [|n]; cbn; try reflexivity; [n
 Lemma update_nth_length {A} (f : A -> A) : forall l n, length (update_nth n f l) = length l.
 Proof. induction l as [|a l IH]; intros [|n]; cbn; auto. Qed.
 Lemma compute_common_witness t i w : compute_common (set_script_witness t i w) = compute_common t.
-Proof. unfold SighashImpl.compute_common, set_script_witness; cbn [tx_in tx_out]. f_equal; f_equal; apply flat_map_update_nth; reflexivity. Qed.
+Proof. unfold SighashImpl.compute_common, set_script_witness; cbn [tx_in tx_out]. f_equal; f_equal; try reflexivity; apply flat_map_update_nth; reflexivity. Qed.
 Lemma compute_taproot_witness t spent i w : compute_taproot (set_script_witness t i w) spent = compute_taproot t spent.
 Proof. unfold SighashImpl.compute_taproot, set_script_witness; cbn [tx_in tx_out]. f_equal; f_equal;
   first [apply flat_map_update_nth | apply map_update_nth]; reflexivity. Qed.
@@ -217,26 +219,19 @@ Lemma bind_lift {A B} (r : sres A) (k : A -> M B) s :
 Proof. reflexivity. Qed.
 
 Theorem acp_one_eq_all s spent idx o annex leaf ty g :
-  schnorr_acp ty = true -> F11_known ty = false ->
+  schnorr_acp ty = true ->
   length spent = length (tx_in (st_tx s)) -> nth_error spent idx = Some o ->
   taproot_encode idx (POne idx o) annex leaf ty g s = taproot_encode idx (PAll spent) annex leaf ty g s.
-Proof. intros A K L N.
+Proof. intros A L N.
   assert (P1 : pv_get (POne idx o) idx = SOk o) by (cbn; now rewrite Nat.eqb_refl).
   assert (P2 : pv_get (PAll spent) idx = SOk o) by (cbn; now rewrite N).
   unfold SighashImpl.taproot_encode. rewrite !bind_get_tx, !bind_lift. cbn [check_all]. rewrite L, Nat.eqb_refl.
   rewrite P1, P2. unfold schnorr_acp in A. rewrite schnorr_split_eq in A.
-  destruct ty; cbn in A; try discriminate A; vm_compute in K; try discriminate K; rewrite schnorr_split_eq; reflexivity. Qed.
+  destruct ty; cbn in A; try discriminate A; rewrite schnorr_split_eq; reflexivity. Qed.
 
 Theorem need_all s idx j o annex leaf ty g : schnorr_acp ty = false ->
   snd (taproot_encode idx (POne j o) annex leaf ty g s) = SErr PrevoutKind.
 Proof. intros A. unfold SighashImpl.taproot_encode. rewrite !bind_get_tx, !bind_lift. cbn [check_all].
   unfold schnorr_acp in A. rewrite schnorr_split_eq in *. destruct ty; cbn in A; try discriminate A; reflexivity. Qed.
 
-(* finding F11: ALL|ANYONECANPAY with One always fails, because the output-witness hash lives in the all-prevouts cache *)
-Theorem acp_all_one_fails s idx j o annex leaf g :
-  snd (taproot_encode idx (POne j o) annex leaf SAllAcp g s) = SErr PrevoutKind.
-Proof. unfold SighashImpl.taproot_encode. rewrite !bind_get_tx, !bind_lift. cbn [check_all].
-  rewrite schnorr_split_eq. cbv beta iota. cbn [negb].
-  change (negb (schnorr_eqb SAll SNone) && negb (schnorr_eqb SAll SSingle)) with true. cbv iota.
-  unfold bind, ret, SighashImpl.common_cache_get. destruct (st_common s); reflexivity. Qed.
 End PROOFS.
